@@ -161,6 +161,8 @@ sim::Json generate(const std::string& tier, uint64_t seed, uint64_t index) {
     sim::FaultOp f; f.role = "stdout"; f.op = "write"; f.k = (int)rng.below(3);
     const char* kinds[] = {"SHORT", "EINTR", "EAGAIN"};
     f.kind = kinds[rng.below(3)]; f.param = (long)rng.range(1, 10);
+    // the condition may persist: stdout is a full non-blocking pipe nobody drains (for a while / at all)
+    if (f.kind != "SHORT" && rng.chance(0.4)) { static const long reps[] = {2, 5, 60, 100000000}; f.repeat = reps[rng.below(4)]; }
     sc.ref("faults").push(f.to_json());
   }
   sc.set("gen", "seeded");
